@@ -338,17 +338,24 @@ PROPS["C12"] = dict(
                  "the proviso of the property (no uncommitted reads, no Get left blocked on a consumer being closed) is built into the model: consumer.Close waits for the consumer mutex"],
 )
 
-_EXCL_C09 = ("still running", "successor cleared before", "work function called before the successor", "did not finish while key 0",
-             "installed a successor although", "cleared an item that is not", "became the runner although")
+# Which rejections of the Exclusive event log are failing inputs of which property.  Everything else (item identity,
+# counts, order of internal events) breaks the correspondence only: reported with no-failing-input-found.
+_EXCL_C09_OBS = ("two work functions of one key overlap", "did not finish while key 0")
+_EXCL_C10_OBS = ("outcome", "executed function was not supplied", "supplied under another key", "a key is still in the map", "model: map empty",
+                 "no resolve-not-called outcome", "callers did not return", "goroutines of some calls did not finish",
+                 "delivered a result, but in the model", "once-only resolve body ran twice", "calls not finished in the model")
 def excl_monitor(prop, m, trace):
-    """attribute a broken acceptance of the Exclusive log to the property its first rejected event belongs to"""
+    """a rejected Exclusive event log is a failing input of a property only if the rejection is on something the property states"""
     text = m.get("expected", "") + " " + m.get("observed", "")
-    is09 = any(k in text for k in _EXCL_C09)
     if prop == "C09":
-        return "the event log shows an overlap / early hand-over the proved model excludes" if is09 else None
-    if is09:
+        if "overlap key=" in trace:
+            return "the harness observed two work functions of one key executing at the same time (the 'overlap' line of the trace)"
+        if any(k in text for k in _EXCL_C09_OBS):
+            return "calls of another key were delayed by a busy key / work functions overlapped"
         return None
-    return "the event log differs from the proved model on attachment, outcome, executed function or clean-up"
+    if any(k in text for k in _EXCL_C10_OBS):
+        return "an outcome, the executed function, termination or the final map state differs from what the proved model allows"
+    return None
 
 _EXCL_RULE = ("exclusive: 2-10 (thorough: up to 27) calls of all styles (Call, CallAfter, CallAsync, Start, StartAfter, CallWithOptions with ExclusiveWork / "
               "ExclusiveStart / ExclusiveWait) on 1-3 keys of one real Exclusive, each from its own goroutine; harness work functions resolve at once, block on a gate before or "
